@@ -7,9 +7,10 @@ From Lospan Require Import Base.Bytes Base.Outcome Model.FrameTypes Model.Frame 
    duplicate) frame of a strict device yields none and changes nothing *)
 Theorem C09_at_most_one_answer :
   forall (E D : list N -> list N -> list N) apps st f rx n now r,
+    (forall k b, length (E k b) = 16%nat) ->
     ds_row st = Some r -> fb_down st -> valid_datr rx ->
     uplink_summary E st r f (l_uplink E D apps st f rx n now).
-Proof. exact l_uplink_summary. Qed.
+Proof. intros E D apps st f rx n now r HE. now apply l_uplink_summary. Qed.
 
 (* a frame that no device authenticates is never answered (C01) *)
 Theorem C09_rejected_not_answered :
@@ -34,14 +35,6 @@ Proof.
   - intros [= <- _]. reflexivity.
 Qed.
 
-From Lospan Require Import Model.Steps Proof.SchedProof.
-(* "Copies of one uplink received through several gateways produce a single answer" is FALSE of the model of
-   the present code when both handlers read the device before either stores the counter (witness schedule;
-   KNOWN_FINDINGS.txt: sched-copies-answered-twice). *)
-Theorem C09_concurrent_copies_answered_twice_refuted : length (flat_map w_fcnt_of (snd copies_result)) = 2%nat.
-Proof. exact concurrent_copies_answered_twice_refuted. Qed.
-
 Print Assumptions C09_at_most_one_answer.
 Print Assumptions C09_rejected_not_answered.
 Print Assumptions C09_ack_flag_cleared.
-Print Assumptions C09_concurrent_copies_answered_twice_refuted.
